@@ -14,6 +14,7 @@
  * is free (the spin/usleep loop of Q_MUTEX_ENTER is not executed).
  *
  * line:   <kind> init=<n> [range=<r>] [opt=<o>|unique] [max=<n>] t0=<op,op,...> t1=<...> [t2=<...>] sched=<c.c.c|->
+ *         ints=1: queue/stack pre-filled with pushint(100+i); use pushint/popint/getint (not mixed with strings)
  *         max=<n>: list/queue/stack only -- setsize(n) after creating and pre-filling the container
  *         (add/push beyond the limit must fail with ENOBUFS); opt=unique = QLISTTBL_UNIQUE
  *         op = name[:arg[:arg]]   (see do_op)
@@ -122,6 +123,7 @@ static long inv_t[MAXT][MAXOPS], res_t[MAXT][MAXOPS];
 static const char *kind;
 static void *cont;                    /* the shared container */
 static int freerun;
+static int ints;                      /* queue/stack: elements are int64 (pushint/popint/getint), not strings */
 
 static void res(char *out, const char *fmt, ...) {
     va_list ap; va_start(ap, fmt); vsnprintf(out, 256, fmt, ap); va_end(ap);
@@ -168,7 +170,19 @@ static void do_op(op_t *o, char *out) {
         qlist_t *l = !strcmp(kind, "list") ? cont : !strcmp(kind, "queue") ? ((qqueue_t *) cont)->list : ((qstack_t *) cont)->list;
         size_t n = 0; char *p = NULL; int isp = 0;
         vstr(o->a, vb);
-        if (!strcmp(kind, "queue") && !strcmp(f, "push")) res(out, "%d", ((qqueue_t *) cont)->pushstr(cont, vb));
+        if (!strcmp(kind, "queue") && !strcmp(f, "pushint")) res(out, "%d", ((qqueue_t *) cont)->pushint(cont, (int64_t) o->a));
+        else if (!strcmp(kind, "queue") && !strcmp(f, "popint")) res(out, "%lld", (long long) ((qqueue_t *) cont)->popint(cont));
+        else if (!strcmp(kind, "queue") && !strcmp(f, "getint")) res(out, "%lld", (long long) ((qqueue_t *) cont)->getint(cont));
+        else if (!strcmp(kind, "stack") && !strcmp(f, "pushint")) res(out, "%d", ((qstack_t *) cont)->pushint(cont, (int64_t) o->a));
+        else if (!strcmp(kind, "stack") && !strcmp(f, "popint")) res(out, "%lld", (long long) ((qstack_t *) cont)->popint(cont));
+        else if (!strcmp(kind, "stack") && !strcmp(f, "getint")) res(out, "%lld", (long long) ((qstack_t *) cont)->getint(cont));
+        else if (!strcmp(kind, "queue") && !strcmp(f, "getstr")) { p = ((qqueue_t *) cont)->getstr(cont); isp = 1; }
+        else if (!strcmp(kind, "stack") && !strcmp(f, "getstr")) { p = ((qstack_t *) cont)->getstr(cont); isp = 1; }
+        else if (!strcmp(kind, "queue") && (!strcmp(f, "push") || !strcmp(f, "pushstr"))) res(out, "%d", ((qqueue_t *) cont)->pushstr(cont, vb));
+        else if (!strcmp(kind, "queue") && !strcmp(f, "popstr")) { p = ((qqueue_t *) cont)->popstr(cont); isp = 1; }
+        else if (!strcmp(kind, "stack") && (!strcmp(f, "pushstr"))) res(out, "%d", ((qstack_t *) cont)->pushstr(cont, vb));
+        else if (!strcmp(kind, "stack") && !strcmp(f, "popstr")) { p = ((qstack_t *) cont)->popstr(cont); isp = 1; }
+        else if (!strcmp(kind, "queue") && !strcmp(f, "push")) res(out, "%d", ((qqueue_t *) cont)->pushstr(cont, vb));
         else if (!strcmp(kind, "queue") && !strcmp(f, "pop")) { p = ((qqueue_t *) cont)->popstr(cont); isp = 1; }
         else if (!strcmp(kind, "stack") && !strcmp(f, "push")) res(out, "%d", ((qstack_t *) cont)->pushstr(cont, vb));
         else if (!strcmp(kind, "stack") && !strcmp(f, "pop")) { p = ((qstack_t *) cont)->popstr(cont); isp = 1; }
@@ -194,22 +208,29 @@ static void do_op(op_t *o, char *out) {
         char *p = NULL; int isp = 0;
         if (!strcmp(kind, "hashtbl")) {
             qhashtbl_t *t = cont;
-            if (!strcmp(f, "put")) res(out, "%d", t->putstr(t, kb, vb));
-            else if (!strcmp(f, "get")) { p = t->getstr(t, kb, true); isp = 1; }
+            if (!strcmp(f, "put") || !strcmp(f, "putstr")) res(out, "%d", t->putstr(t, kb, vb));
+            else if (!strcmp(f, "putint")) res(out, "%d", t->putint(t, kb, (int64_t) o->b));
+            else if (!strcmp(f, "putstrf")) res(out, "%d", t->putstrf(t, kb, "%s-%d", "f", (int) o->b));
+            else if (!strcmp(f, "getint")) res(out, "%lld", (long long) t->getint(t, kb));
+            else if (!strcmp(f, "get") || !strcmp(f, "getstr")) { p = t->getstr(t, kb, true); isp = 1; }
             else if (!strcmp(f, "remove")) res(out, "%d", t->remove(t, kb));
             else if (!strcmp(f, "clear")) { t->clear(t); res(out, "void"); }
             else res(out, "bad-op");
         } else if (!strcmp(kind, "listtbl")) {
             qlisttbl_t *t = cont;
-            if (!strcmp(f, "put")) res(out, "%d", t->putstr(t, kb, vb));
-            else if (!strcmp(f, "get")) { p = t->getstr(t, kb, true); isp = 1; }
+            if (!strcmp(f, "put") || !strcmp(f, "putstr")) res(out, "%d", t->putstr(t, kb, vb));
+            else if (!strcmp(f, "putint")) res(out, "%d", t->putint(t, kb, (int64_t) o->b));
+            else if (!strcmp(f, "putstrf")) res(out, "%d", t->putstrf(t, kb, "%s-%d", "f", (int) o->b));
+            else if (!strcmp(f, "getint")) res(out, "%lld", (long long) t->getint(t, kb));
+            else if (!strcmp(f, "get") || !strcmp(f, "getstr")) { p = t->getstr(t, kb, true); isp = 1; }
             else if (!strcmp(f, "remove")) res(out, "%zu", t->remove(t, kb));
             else if (!strcmp(f, "clear")) { t->clear(t); res(out, "void"); }
             else res(out, "bad-op");
         } else if (!strcmp(kind, "treetbl")) {
             qtreetbl_t *t = cont;
-            if (!strcmp(f, "put")) res(out, "%d", t->putstr(t, kb, vb));
-            else if (!strcmp(f, "get")) { p = t->getstr(t, kb, true); isp = 1; }
+            if (!strcmp(f, "put") || !strcmp(f, "putstr")) res(out, "%d", t->putstr(t, kb, vb));
+            else if (!strcmp(f, "putstrf")) res(out, "%d", t->putstrf(t, kb, "%s-%d", "f", (int) o->b));
+            else if (!strcmp(f, "get") || !strcmp(f, "getstr")) { p = t->getstr(t, kb, true); isp = 1; }
             else if (!strcmp(f, "remove")) res(out, "%d", t->remove(t, kb));
             else if (!strcmp(f, "clear")) { t->clear(t); res(out, "void"); }
             else if (!strcmp(f, "min")) { p = t->find_min(t, NULL); isp = 1; }
@@ -252,12 +273,12 @@ static void make_container(int init, int range, int opt, int max) {
         cont = l;
     } else if (!strcmp(kind, "queue")) {
         qqueue_t *q = qqueue(QQUEUE_THREADSAFE);
-        for (int i = 0; i < init; i++) { vstr(100 + i, vb); q->pushstr(q, vb); }
+        for (int i = 0; i < init; i++) { if (ints) q->pushint(q, 100 + i); else { vstr(100 + i, vb); q->pushstr(q, vb); } }
         if (max > 0) q->setsize(q, (size_t) max);
         cont = q;
     } else if (!strcmp(kind, "stack")) {
         qstack_t *q = qstack(QSTACK_THREADSAFE);
-        for (int i = 0; i < init; i++) { vstr(100 + i, vb); q->pushstr(q, vb); }
+        for (int i = 0; i < init; i++) { if (ints) q->pushint(q, 100 + i); else { vstr(100 + i, vb); q->pushstr(q, vb); } }
         if (max > 0) q->setsize(q, (size_t) max);
         cont = q;
     } else if (!strcmp(kind, "hashtbl")) {
@@ -286,7 +307,9 @@ static void final_content(void) {
         for (qlist_obj_t *o = l->first; o && cnt < 100; o = o->next) { cnt++; sum += o->size; }
         printf("%zu/%zu/%zu", l->num, cnt, l->datasum == sum ? (size_t) 1 : (size_t) 0);
         cnt = 0;
-        for (qlist_obj_t *o = l->first; o && cnt < 100; o = o->next, cnt++) printf(",%s", (char *) o->data);
+        for (qlist_obj_t *o = l->first; o && cnt < 100; o = o->next, cnt++) {
+            if (ints && o->size == sizeof(int64_t)) printf(",%lld", (long long) *(int64_t *) o->data); else printf(",%s", (char *) o->data);
+        }
     } else if (!strcmp(kind, "hashtbl")) {
         qhashtbl_t *t = cont; printf("%zu", t->num);
         for (size_t i = 0; i < t->range; i++) for (qhashtbl_obj_t *o = t->slots[i]; o; o = o->next) printf(",%s=%s", o->name, (char *) o->data);
@@ -336,7 +359,7 @@ int main(void) {
         if (nw == 0) continue;
         kind = w[0];
         int init = 0, range = 3, opt = 0, max = 0, bad = 0, reps = 1;
-        nthreads = 0; nprefix = 0; freerun = 0;
+        nthreads = 0; nprefix = 0; freerun = 0; ints = 0;
         for (int t = 0; t < MAXT; t++) nops[t] = 0;
         for (int i = 1; i < nw; i++) {
             char *eq = strchr(w[i], '='); if (!eq) { bad = 1; break; }
@@ -345,6 +368,7 @@ int main(void) {
             else if (!strcmp(w[i], "range")) range = atoi(v);
             else if (!strcmp(w[i], "opt")) opt = !strcmp(v, "unique") ? QLISTTBL_UNIQUE : atoi(v);
             else if (!strcmp(w[i], "max")) max = atoi(v);
+            else if (!strcmp(w[i], "ints")) ints = atoi(v);
             else if (!strcmp(w[i], "free")) freerun = atoi(v);
             else if (!strcmp(w[i], "reps")) reps = atoi(v);
             else if (w[i][0] == 't' && w[i][1] >= '0' && w[i][1] < '0' + MAXT && !w[i][2]) {
